@@ -141,6 +141,42 @@ fn main() {
     let uni = universe();
     let thorough = args.thorough();
 
+    if let Some(path) = &args.replay {
+        // re-run the *inputs* of recorded cases against the current implementation
+        for (kind, f) in replay_cases(path) {
+            match kind.as_str() {
+                "compat" if f.len() >= 2 => {
+                    let c = are_semver_compatible(&f[0], &f[1]);
+                    out.case(true, "compat", &[esc(&f[0]), esc(&f[1]), if c { "1" } else { "0" }.into()]);
+                }
+                "ver" if !f.is_empty() => {
+                    out.case(true, "ver", &[esc(&f[0]), esc(&show_ver(&f[0]))]);
+                }
+                "vlt" if f.len() >= 2 => {
+                    if let (Ok(a), Ok(b)) = (semver::Version::parse(&f[0]), semver::Version::parse(&f[1])) {
+                        out.case(true, "vlt", &[esc(&f[0]), esc(&f[1]), if a < b { "1" } else { "0" }.into()]);
+                    }
+                }
+                "map" if !f.is_empty() => {
+                    let n: usize = f[0].parse().unwrap_or(0);
+                    let mut ins = Vec::new();
+                    for i in 0..n {
+                        if let (Some(name), Some(sh)) = (f.get(1 + 3 * i), f.get(2 + 3 * i)) {
+                            ins.push((name.clone(), sh == "1"));
+                        }
+                    }
+                    let qstart = 1 + 3 * n;
+                    let nq: usize = f.get(qstart).and_then(|s| s.parse().ok()).unwrap_or(0);
+                    let queries: Vec<String> = (0..nq).filter_map(|i| f.get(qstart + 1 + 2 * i).cloned()).collect();
+                    map_case(&mut out, &ins, &queries);
+                }
+                _ => {}
+            }
+        }
+        out.finish();
+        return;
+    }
+
     // 1. pairs over the small universe: all in thorough, a 1/stride sample in quick
     let stride = if thorough { 1 } else { args.num("stride", 20) };
     let mut k = r.below(stride);
